@@ -1308,7 +1308,9 @@ pub fn run_c12(ctx: &Ctx) -> i32 {
         let parts = 1usize << order;
         let plen = *rng.pick(&[4usize, 8, 16]);
         let n = parts * plen;
-        let warm = rng.usize_below(3).min(plen);
+        // warm-up of every fixed order 0..=4 (at 17 bits and more the warm-up of the higher orders
+        // no longer fits one 64-bit word)
+        let warm = rng.usize_below(5).min(plen);
         let params: Vec<u8> = (0..parts).map(|_| rng.usize_below(6) as u8).collect();
         let mut q = vec![0u32; n];
         let mut r = vec![0u32; n];
@@ -1326,8 +1328,10 @@ pub fn run_c12(ctx: &Ctx) -> i32 {
         let Ok(res) = Residual::new(order, n, warm, &params, &q, &r) else { return };
         fault_sweep(ctx, "Residual(constructed)", &res, 600, out, &|k| rpj(ctx, "constructed", idx, json!({"case": d, "fault_at": k})));
         if warm > 0 {
-            let w: Vec<i32> = (0..warm).map(|_| rng.range(-100, 100) as i32).collect();
-            if let Ok(f) = FixedLpc::new(&w, res, 16) {
+            let wbps = *rng.pick(&[8usize, 12, 16, 17, 20, 21, 24, 25]);
+            let wl = 1i64 << (wbps - 1);
+            let w: Vec<i32> = (0..warm).map(|_| if rng.flip() { rng.range(-100, 100) } else { rng.range(-wl, wl - 1) } as i32).collect();
+            if let Ok(f) = FixedLpc::new(&w, res, wbps) {
                 let sf: SubFrame = f.into();
                 fault_sweep(ctx, "SubFrame(constructed)", &sf, 300, out, &|k| rpj(ctx, "constructed", idx, json!({"case": d, "subframe": true, "fault_at": k})));
             }
